@@ -443,7 +443,7 @@ def one_case(ctx, rng, idx, out):
             except Unsupported:
                 continue
             out["vm"].append(("sx_load default_world %s" % P.prog_coq(ops), expected, dict(case, corr="vm", generation=gen_i + 1)))
-            shared = _has_shared_container(ops)
+            shared = _shares_mutable(rr["result"])
             ctx.count("dump:with-shared-mutable-container" if shared else "dump:no-shared-mutable-container")
             out["acc"].append(("sx_bool (accepts %s %s)" % (P.prog_coq(ops), pcoq), not shared, dict(case, corr="accepts", generation=gen_i + 1, shared=shared)))
             memo_kind, prev = {}, None
@@ -514,6 +514,43 @@ def one_case(ctx, rng, idx, out):
                                 dict(case, corr="json")))
         except Unsupported:
             ctx.count("corr:json-outside-model")
+
+
+def _shares_mutable(obj):
+    """some mutable object (list / dict / set / SetOrdered / Opcode record, or a tuple that contains
+    one) occurs at two positions of the loaded payload: the pickler fetched it from the memo"""
+    seen = set()
+    found = [False]
+
+    def walk(o):
+        """-> True when o is or contains a mutable object"""
+        mut = False
+        if isinstance(o, dict):
+            kids = list(o.keys()) + list(o.values())
+            mut = True
+        elif isinstance(o, (list, set)) or type(o).__name__ == "SetOrdered":
+            kids = list(o)
+            mut = True
+        elif isinstance(o, tuple):
+            kids = list(o)
+            mut = type(o) is not tuple      # an Opcode record is an instance
+        elif isinstance(o, frozenset):
+            kids = []
+        else:
+            return False
+        if mut and id(o) in seen:
+            found[0] = True
+            return True
+        inner = False
+        for k in kids:
+            inner = walk(k) or inner
+        if (mut or inner):
+            if id(o) in seen:
+                found[0] = True
+            seen.add(id(o))
+        return mut or inner
+    walk(obj)
+    return found[0]
 
 
 def _has_shared_container(ops):
